@@ -18,6 +18,13 @@ def gen(ctx):
         for combo in itertools.product(items, repeat=k):
             yield "agg " + ",".join(combo)
     ctx["scopes"].append("all reply sequences of length <= %d over codes {200,350,550,65535} x texts {empty,'t'}" % maxlen)
+    # the aggregate is asked while it is being filled: every subset of query positions (also while it is still empty) for every
+    # sequence of length <= 3, and a copy taken half-way
+    for k in range(0, 4):
+        for combo in itertools.product(items, repeat=k):
+            for mask in range(1 << (k + 1)):
+                yield "aggq %s %s" % ("".join("1" if mask >> i & 1 else "0" for i in range(k + 1)), ",".join(combo) if combo else "-")
+    ctx["scopes"].append("is_positive() asked before / between / after the appends: all subsets of query positions x all sequences of length <= 3")
     n = 3000 if tier == "quick" else 60000
     for _ in range(n):
         k = rng.range(1, 40)
